@@ -1066,6 +1066,36 @@ func appendCells(s []value, add []value, tElt types.Type) []value {
 // expandDec materialises the decimal text of x as byte cells: the length
 // is forked on (1..18 characters), the digits are fresh symbolic bytes
 // constrained to spell x.
+// decOrigins remembers, for the digit bytes produced by expandDec, which
+// value they spell: ParseInt of exactly those bytes is that value again.
+type decOrigin struct {
+	x   *Term
+	n   int
+	idx int
+}
+
+var decOrigins = map[*Term]decOrigin{}
+
+// decOriginOf reports the term whose complete decimal text b is.
+func decOriginOf(b []value) (*Term, bool) {
+	if len(b) == 0 {
+		return nil, false
+	}
+	var x *Term
+	for i, c := range b {
+		s, ok := c.(*Sym)
+		if !ok {
+			return nil, false
+		}
+		o, ok := decOrigins[s.t]
+		if !ok || o.idx != i || o.n != len(b) || (i > 0 && o.x != x) {
+			return nil, false
+		}
+		x = o.x
+	}
+	return x, true
+}
+
 func expandDec(x *Term) []value {
 	if x.op == OpConst {
 		s := fmt.Sprint(int64(x.val))
@@ -1074,16 +1104,18 @@ func expandDec(x *Term) []value {
 	}
 	ex := theEx
 	n := int(ex.concretize(decLen(x), 1, 20, "declen"))
-	if n > 18 {
-		ex.unsupported("decimal text longer than 18 characters used as bytes")
-	}
 	base := ex.freshName("$dec")
 	cells := make([]value, n)
 	for i := range cells {
 		cv := mkVar(fmt.Sprintf("%s[%d]", base, i), 8)
 		cells[i] = &Sym{cv}
 	}
-	ex.assume(decEqCells(x, cells))
+	var cellTerms []*Term
+	for i, c := range cells {
+		decOrigins[c.(*Sym).t] = decOrigin{x, n, i}
+		cellTerms = append(cellTerms, c.(*Sym).t)
+	}
+	ex.assumeDef(decEqCells(x, cells), cellTerms)
 	usedIntrinsics["decimal text expanded to digit bytes"]++
 	return cells
 }
